@@ -202,6 +202,20 @@ def run(ctx: Ctx) -> int:
         fn=ad,
         details={"witness": witness, "symbols": sorted(symbols), "selection": sel},
     )
+    # the string fallback (symbol O) applies to the plain `str` member only: a restricted string type in the
+    # Union must not accept the raw text without its own check
+    o_apps = [a for a in apps if _classify_append(a, loop) == "O"]
+    for a in o_apps:
+        gch = guard_chain(a, stop=loop)
+        ident = False
+        for t, pol in gch:
+            for sub in ast.walk(t):
+                if isinstance(sub, ast.Compare) and len(sub.ops) == 1 and isinstance(sub.ops[0], ast.Is) and isinstance(sub.comparators[0], ast.Name) and sub.comparators[0].id == "str" and pol:
+                    # the identity test must be a top-level conjunct of the guard
+                    conj = t.values if isinstance(t, ast.BoolOp) and isinstance(t.op, ast.And) else [t]
+                    ident = ident or any(c is sub for c in conj)
+        ctx.oblige("C02.a", ident, a, "the raw-string fallback is taken only for the member that is exactly `str`" if ident else "the raw-string fallback is no longer restricted to the member that is exactly `str`: members that merely derive from str (restricted string types) would accept text without their own check, so the Union accepts what no member accepts", fn=ad, construct="string fallback guard")
+
     # the member order itself: sort_subtypes_for_union only reorders (returns sorted(...) of its input)
     ssu = ctx.func("_typehints:sort_subtypes_for_union")
     rets = [r for r in walk_local(ssu) if isinstance(r, ast.Return)]
